@@ -18,6 +18,7 @@ SCEN = {  # the harness scenarios as histories of the model: the environment's p
     "close-while-call-is-being-prepared": "p_connect ++ [LNewInvoke; LG 0 GA; LG 0 GA; LNewClose; LClose 0 true; LClose 0 true]",
     "peer-answers-each-call-several-times": "p_connect ++ [LNewInvoke; LG 0 GA; LG 0 GA; LG 0 GA; LG 0 (GAHand true); LNet 0; LHand 0 (Some false); LNet 0; LHand 0 (Some false); LG 1 GA; LG 0 GAResp; LNet 0; LHand 0 (Some false); LNewClose]",
     "close-during-a-slow-upgrade": "[LLc; LRt true; LRt true; LNewClose; LClose 0 true; LClose 0 true; LDial true]",
+    "close-after-dial-context-ended": "p_connect ++ [LNewClose]",
     "peer-closed-first": "p_connect ++ [LSockDie 0; LRp 0; LWpCwp 0; LWpLock 0; LWpRel 0 true; LLc; LRtFired; LRt true; LRt true; LDial false; LNewClose]",
 }
 CFG_ORDER = ["invoke_nil", "handler_nil", "rp_cconn", "rp_wdone", "wr_wdone", "wp_sock", "wp_cc_sock", "inv_connctx", "close_again", "csm_final"]
